@@ -46,6 +46,8 @@ def scenario(relate, query, consume):
         cs[1].members.add(ps[2])
     elif relate == "sub_org":
         cs[0].sub_organization_of = [cs[1]]
+    elif relate == "self-loop":
+        cs[0].sub_organization_of.append(cs[0])          # an instance related to itself (the only pair of that field)
     elif relate == "role":
         # a relation asserted on a ROLE of a person (inferred on the role taker), then the role is dropped with the rest
         ceo = CEO(person=ps[0])
@@ -115,7 +117,7 @@ scenario("works_for", "explicit-domain", "all")
 gc.collect()
 SymbolGraph().remove_dead_instances()
 
-for relate, query, consume in itertools.product(["none", "works_for", "members", "sub_org", "role", "read-back", "two-kinds-on-one-pair"], ["no-query", "explicit-domain", "implicit-domain", "two-variables"], ["all", "first", "none"]):
+for relate, query, consume in itertools.product(["none", "works_for", "members", "sub_org", "self-loop", "role", "read-back", "two-kinds-on-one-pair"], ["no-query", "explicit-domain", "implicit-domain", "two-variables"], ["all", "first", "none"]):
     if query == "no-query" and consume != "all":
         continue
     gc.collect()
@@ -139,6 +141,59 @@ for relate, query, consume in itertools.product(["none", "works_for", "members",
         rep.fail(f"bookkeeping-grows::{qkind}::{'+'.join(sorted(graph_keys))}", f"relate={relate} query={query} consume={consume}: {dict((k, grown[k]) for k in graph_keys)}", inp)
     if expr_keys:
         rep.fail(f"expression-registry-grows::{qkind}", f"relate={relate} query={query} consume={consume}: {dict((k, grown[k]) for k in expr_keys)}", inp)
+# ---- a LONG-LIVED owner: members are added, removed again through the ordinary set / list API, and dropped by the program
+KEEPER = Company(name="keeper")
+for how in ("discard", "remove", "pop", "clear", "-=", "list-remove", "list-pop", "del-item"):
+    gc.collect()
+    SymbolGraph().remove_dead_instances()
+    before = root_sizes()
+    ps_ = [Person(name=f"member{i}") for i in range(3)]
+    refs = [weakref.ref(x_) for x_ in ps_]
+    p_ = None
+    if how.startswith(("list", "del")):
+        holder = Person(name="holder")
+        others = [Company(name=f"tmp{i}") for i in range(3)]
+        refs = [weakref.ref(o_) for o_ in others] + [weakref.ref(holder)]
+        for o_ in others:
+            holder.member_of.append(o_)
+        if how == "list-remove":
+            for o_ in others:
+                holder.member_of.remove(o_)
+        elif how == "list-pop":
+            while len(holder.member_of):
+                holder.member_of.pop()
+        else:
+            del holder.member_of[:]
+        del others, o_, holder
+    else:
+        for p_ in ps_:
+            KEEPER.members.add(p_)
+        if how == "discard":
+            for p_ in ps_:
+                KEEPER.members.discard(p_)
+        elif how == "remove":
+            for p_ in ps_:
+                KEEPER.members.remove(p_)
+        elif how == "pop":
+            while len(KEEPER.members):
+                KEEPER.members.pop()
+        elif how == "clear":
+            KEEPER.members.clear()
+        else:
+            KEEPER.members -= set(ps_)
+    del ps_, p_
+    gc.collect()
+    SymbolGraph().remove_dead_instances()
+    gc.collect()
+    after = root_sizes()
+    alive = sum(1 for r in refs if r() is not None)
+    inp = {"history": "long-lived owner", "removed_with": how}
+    rep.case(("long-lived-owner", how), sample=inp)
+    if alive:
+        rep.fail(f"kept-alive::no-query::removed-from-a-long-lived-container::{how}", f"members added to a long-lived company, removed with {how}, dropped: {alive} of {len(refs)} are still alive", inp)
+    grown = {k: (before[k], after[k]) for k in before if after[k] > before[k] and not k.startswith(("_id_expression", "expression"))}
+    if grown and not alive:
+        rep.fail(f"bookkeeping-grows::no-query::removed-from-a-long-lived-container::{how}", f"removed with {how}: {grown}", inp)
 for relate in ("none", "works_for", "members"):
     for n in (5, 40):
         gc.collect()
